@@ -61,6 +61,10 @@ checks = {
  "C09": ("A", "exhaustive enumeration of (read-only receiver, method found by reflection, argument tuple), singly and as ordered pairs, with a raw-dump-unchanged oracle",
          "Every exported method of Stack and Condition (method sets read by reflection at run time) x argument tuples from the typed catalogue is called on every read-only receiver (5 kinds x 3 contents x plain/fully configured incl. mutex, FIFO, capacity, options, policies, logger; 4 Conditions), singly and as ordered pairs on representative receivers; the recursive raw dump (addresses included, nested instances too) must be identical before and after, the only exceptions being the read-only bit itself, the error via SetErr and Condition.Init replacing the handle; Free must fail and keep the instance; clearing the flag must give back exactly the state it was set on, and mutability.",
          "Trusted: VerifDump as the complete state; the typed argument catalogue.", "§3 C09"),
+
+ "C11": ("A/B+C", "exhaustive enumeration of (receiver, query found by reflection, arguments) with a raw-dump-unchanged oracle and a lock-hook trap; exhaustive schedule exploration of concurrent queries; separate free-running -race pass",
+         "Every exported method found by reflection that is not in the declared mutator list is a query: x argument tuples x receivers (5 kinds x 3 contents x {plain, mutex, read-only, both} x {default, fully configured}; 8 Conditions). The recursive raw dump (nested instances included) must be identical before/after, the answer identical when repeated, altering every returned slice must change nothing, and the lock hook turns any lock event during a query into a failure (the read path is lock-free). Concurrency: every schedule of three threads issuing queries on one shared mutex-enabled structure is explored under the cooperative scheduler (answers equal the isolated ones, nothing written); the memory-model clause is served by a free-running -race pass with 16 goroutines in which any report is a violation.",
+         "Trusted: VerifDump as the complete state; the mutator list (a mutator wrongly listed there is not checked here); race pass is sampling.", "§3 C11"),
 }
 not_built = {f"C{i:02d}" for i in range(1,21)} - set(checks)
 m = {
